@@ -129,6 +129,9 @@ where
             return Ok(());
         }
 
+        // A configured seed must keep determining every later call: the generator is handed back
+        // when the roadmap is built.
+        let seeded = self.rng.is_some();
         let mut rng = self
             .rng
             .take()
@@ -164,6 +167,9 @@ where
                     self.roadmap[i].edges.push(new_node_idx);
                 }
             }
+        }
+        if seeded {
+            self.rng = Some(rng);
         }
         println!(
             "PRM: Roadmap constructed with {} milestones.",
